@@ -280,7 +280,7 @@ impl Property for C04 {
         // drop single ops (never the structural objects of the base)
         for (ri, rev) in c.spec.revisions.iter().enumerate() {
             for oi in 0..rev.ops.len() {
-                if ri == 0 && oi < 3 {
+                if ri == 0 && matches!(rev.ops[oi], ObjOp::Define { kind: Kind::Catalog | Kind::Pages | Kind::Page, .. }) {
                     continue;
                 }
                 if rev.ops.len() == 1 && ri > 0 {
